@@ -16,8 +16,8 @@ from . import common
 
 
 def engine_model(ctx, cov):
-    fams = ["small", "cyc", "cycneg", "negloop", "nested"] if ctx.tier == "quick" else \
-        ["small", "cyc", "cycneg", "negloop", "nested", "fam3", "big"]
+    fams = ["small", "cyc", "cycneg", "negloop", "nested", "multirec"] if ctx.tier == "quick" else \
+        ["small", "cyc", "cycneg", "negloop", "nested", "multirec", "fam3", "big"]
     # configurations that MUST produce a counterexample: the engine before the two repairs (KF4, KF1), the known finding KF2
     # in model form, and the naive KF2 repair that TLC refuted (NoDanglingMessages)
     fail = ["Engine_prefix_tablehit.cfg", "Engine_kf2.cfg"] + \
